@@ -17,7 +17,7 @@ RULE = ('fault enumeration: for each base file (spec-serialized random '
         'Non-trivial = the cut (or perturbation) lies after the first '
         'content header; distinct = (file fingerprint, cut) by construction.')
 FLOOR = {'quick': 50000, 'thorough': 1000000}
-REQUIRED_REACH = ['DiffXReader._read_content']
+REQUIRED_REACH = ['reader.py:']
 REQUIRED_COUNTERS = ['exact_byte_count_checked', 'cut:in_header', 'cut:in_content', 'cut:at_boundary',
                      'cut:content_after_newline', 'length_perturbations']
 ASSUMPTIONS = [
@@ -105,6 +105,19 @@ def run_reader(data, coffs=None):
     return recs, exc, short, neg
 
 
+def ends_in_newline(content, rec):
+    if isinstance(content, str):
+        return content.endswith('\n')
+    from mon.oracle.newline import newline_bytes
+    codec = rec['options'].get('encoding')
+    if not isinstance(codec, str):
+        codec = None
+    try:
+        return content.endswith(newline_bytes('unix', codec))
+    except Exception:
+        return content.endswith(b'\n')
+
+
 def judge(recs, exc, short, neg, intact, case, obs, label):
     """Prefix relation + error family."""
     if exc is not None and type(exc).__name__ != 'DiffXParseError':
@@ -128,7 +141,11 @@ def judge(recs, exc, short, neg, intact, case, obs, label):
                     rel = 'content_complete'
                 elif (isinstance(a, (bytes, str)) and type(a) is type(b) and
                       a.startswith(b)):
-                    rel = 'content_is_proper_prefix'
+                    # F8a is specifically a cut that leaves content ENDING in
+                    # a line ending; content cut in mid-line must never pass
+                    rel = ('content_is_proper_prefix'
+                           if ends_in_newline(b, intact[i])
+                           else 'content_cut_mid_line')
             mech = '%s:altered_section_yielded:short_read_accepted:%s:%s' % (
                 label, kind, rel)
         elif neg:
